@@ -1,5 +1,6 @@
 import Hs.Model.Vx
 import Hs.Model.Ns
+import Hs.Model.NsAssoc
 /-
   Driver glue for C13.  Requests (tokens after `C13`); `G` = `<nrows> {<def|-> <nis> {<item|->}*}*`, names
   are hex strings, name lists are count-prefixed:
@@ -8,6 +9,16 @@ import Hs.Model.Ns
     refl G <kr> {<ntags> {<tag> <0|1>}*}* <kb> base..
                                         per record, joined by `;`:  defs=..|fits=<the bases it fits>
   Every name list is sorted (code point order) and printed as comma-separated hex.
+
+  Part 2 (Hs.Model.NsAssoc); `GX` = `<nrows> {<def|-> <ntags> {<key> (m | s <sym> | l <n> {<item|->}* | o)}*}*`:
+    assoc GX <kq> q.. <ka> a..          `<index>#<per q, joined by ;>` where
+                                        index = cho=k:v,v/k:..|feat=..|libs=..|fn=..|ton=..|tod=k:v,v/..|conj=..
+                                        per q = <a>=<associations(q, a)> per a, joined by |, then |impl=b,b+m,m|roots=<4 bits>
+                                        (impl: the ordered parts, `+`, the mandatory supertypes sorted; tod values in list order)
+    rel GX <nrecs> {<key|-> <id|-> <nt> {<tag> <ref|->}*}* <nq> {<subject index> <rel> <term|-> <target|->}*
+                                        per query 1 | 0 | !<outcome>, joined by ;
+    ent GX <ko> order.. <kr> {<ntags> {<tag> <0|1>}*}*
+                                        per record the entity type's def name or `-`, joined by ;
 -/
 namespace Hs.Drv.C13
 open Hs Hs.Vx Hs.Ns
@@ -97,12 +108,157 @@ def reflReq (ts : List String) : String :=
         let fuel := fuelFor ns.defs
         "ok " ++ ";".intercalate (recs.map (reflReply fuel ns bases))
 
+
+/-! ### part 2 -/
+section
+open Hs.NsA
+
+def pTagV : P TagV := fun ts => do
+  let (k, ts) ← tok ts
+  if k = "m" then pure (.marker, ts)
+  else if k = "o" then pure (.other, ts)
+  else if k = "s" then do
+    let (s, ts) ← pH ts
+    pure (.sym s, ts)
+  else if k = "l" then do
+    let (n, ts) ← pNat ts
+    let (items, ts) ← pRep pHO n ts
+    pure (.list items, ts)
+  else none
+
+def pKV : P (Name × TagV) := fun ts => do
+  let (k, ts) ← pH ts
+  let (v, ts) ← pTagV ts
+  pure ((k, v), ts)
+
+def pRowX : P RowX := fun ts => do
+  let (n, ts) ← pHO ts
+  let (k, ts) ← pNat ts
+  let (tags, ts) ← pRep pKV k ts
+  pure ({ name := n, tags := tags }, ts)
+
+def pRowsX : P (List RowX) := fun ts => do
+  let (k, ts) ← pNat ts
+  pRep pRowX k ts
+
+def showList (l : List Name) : String := ",".intercalate (l.map H)
+
+def showMap (m : List (Name × List Name)) (sortVals : Bool) : String :=
+  let m := m.mergeSort (fun a b => nameLe a.1 b.1)
+  "/".intercalate (m.map (fun kv => H kv.1 ++ ":" ++ (if sortVals then showNames kv.2 else showList kv.2)))
+
+def indexReply (x : NsX) : String :=
+  "cho=" ++ showMap (choicesIndex x) true ++
+  "|feat=" ++ showNames (features x) ++
+  "|libs=" ++ showNames (libs x) ++
+  "|fn=" ++ showNames (featureNames x) ++
+  "|ton=" ++ showNames (tagOnNames x) ++
+  "|tod=" ++ showMap (tagOnDefs x) false ++
+  "|conj=" ++ showNames (conjuncts x)
+
+def assocQReply (fuel : Nat) (x : NsX) (as : List Name) (q : Name) : String :=
+  let parts := as.map (fun a => H a ++ "=" ++ showRes (associations fuel x q a))
+  let impl := match implementation fuel x q with
+    | .ok (b, m) => showList b ++ "+" ++ showNames m
+    | e => "!" ++ e.tag
+  let roots := String.ofList ((List.range 4).map (fun w =>
+    match fitsRoot fuel x w q with
+    | .ok true => '1'
+    | .ok false => '0'
+    | _ => '!'))
+  "|".intercalate parts ++ "|impl=" ++ impl ++ "|roots=" ++ roots
+
+def assocReq (ts : List String) : String :=
+  match pRowsX ts with
+  | none => "bad-request"
+  | some (rows, ts) =>
+    match pNames ts with
+    | none => "bad-request"
+    | some (qs, ts) =>
+      match pNames ts with
+      | none => "bad-request"
+      | some (as, _) =>
+        let x := makeX rows
+        let fuel := fuelFor x.ns.defs
+        "ok " ++ indexReply x ++ "#" ++ ";".intercalate (qs.map (assocQReply fuel x as))
+
+def pSubjTag : P SubjTag := fun ts => do
+  let (k, ts) ← pH ts
+  let (r, ts) ← pHO ts
+  pure ({ key := k, ref := r }, ts)
+
+def pRecX : P RecX := fun ts => do
+  let (key, ts) ← pHO ts
+  let (id, ts) ← pHO ts
+  let (n, ts) ← pNat ts
+  let (tags, ts) ← pRep pSubjTag n ts
+  pure ({ key := key, id := id, tags := tags }, ts)
+
+structure RelQ where
+  subj : Nat
+  rel : Name
+  term : Option Name
+  target : Option Name
+
+def pRelQ : P RelQ := fun ts => do
+  let (i, ts) ← pNat ts
+  let (r, ts) ← pH ts
+  let (t, ts) ← pHO ts
+  let (g, ts) ← pHO ts
+  pure ({ subj := i, rel := r, term := t, target := g }, ts)
+
+def relReq (ts : List String) : String :=
+  match pRowsX ts with
+  | none => "bad-request"
+  | some (rows, ts) =>
+    match (do let (n, ts) ← pNat ts; pRep pRecX n ts : Option (List RecX × List String)) with
+    | none => "bad-request"
+    | some (recs, ts) =>
+      match (do let (n, ts) ← pNat ts; pRep pRelQ n ts : Option (List RelQ × List String)) with
+      | none => "bad-request"
+      | some (qs, _) =>
+        let x := makeX rows
+        let fuel := fuelFor x.ns.defs
+        "ok " ++ ";".intercalate (qs.map (fun q =>
+          match recs[q.subj]? with
+          | none => "bad-subject"
+          | some s =>
+            match NsA.hasRelationship fuel (recs.length + 1) x recs q.rel q.term q.target s with
+            | .ok true => "1"
+            | .ok false => "0"
+            | e => "!" ++ e.tag))
+
+def entReq (ts : List String) : String :=
+  match pRowsX ts with
+  | none => "bad-request"
+  | some (rows, ts) =>
+    match pNames ts with
+    | none => "bad-request"
+    | some (order, ts) =>
+      match pRecs ts with
+      | none => "bad-request"
+      | some (recs, _) =>
+        let x := makeX rows
+        let fuel := fuelFor x.ns.defs
+        "ok " ++ ";".intercalate (recs.map (fun r =>
+          match reflect fuel x.ns r with
+          | .ok ds =>
+            match entityType fuel x.ns ds order with
+            | .ok (some n) => H n
+            | .ok none => "-"
+            | e => "!" ++ e.tag
+          | e => "!" ++ e.tag))
+end
+
 /-- requests `C13 <cmd> ...` (tokens after the property id) -/
 def handle (ts : List String) : String :=
   match ts with
   | cmd :: rest =>
     if cmd = "sym" then symReq rest
     else if cmd = "refl" then reflReq rest
+    else if cmd = "assoc" then assocReq rest
+    else if cmd = "rel" then relReq rest
+    else if cmd = "ent" then entReq rest
     else "bad-request"
   | [] => "bad-request"
 
